@@ -109,7 +109,9 @@ func (kc *Cache[V]) Update(key []byte, fn func(v Entry[V], exists bool) Entry[V]
 	needToEvict := kc.count > kc.max
 	if needToEvict {
 		evicted = kc.evict()
-		added = !bytes.Equal(key, evicted.Key)
+		if evicted != nil {
+			added = !bytes.Equal(key, evicted.Key)
+		}
 	}
 	return evicted, added
 }
@@ -270,6 +272,16 @@ func (kc *Cache[V]) evict() *Entry[V] {
 		if b.len() > kc.minPerBucket {
 			n = i
 			break
+		}
+	}
+	if n < 0 {
+		// every bucket is within its protected minimum (there can be one more
+		// bucket than the constructor accounts for); take the farthest non-empty one.
+		for i, b := range kc.buckets {
+			if b.len() > 0 {
+				n = i
+				break
+			}
 		}
 	}
 	if n < 0 {
